@@ -20,7 +20,7 @@ ID = "C16"
 RULE = (
     "(a) NonnegMean.sample_size, deterministic: every grid vector of length 1..L as pilot data x N x alpha x test/estimator "
     "menu: estimate = first index at which the real test's history on the documented population (pilot values tiled to N) is "
-    "<= alpha, else N; (b) simulation branch with numpy's RandomState replaced by a scripted object: every tail the generator "
+    "<= alpha, else N (also N = 1,500 and 5,000 with pilots that cross late); (b) simulation branch with numpy's RandomState replaced by a scripted object: every tail the generator "
     "could return (reps=1) and every window of 3 consecutive tails (reps=3) x quantile x seed: if the supplied prefix already "
     "crosses alpha at k the estimate is k, and it always lies in 1..N; also with the real generator for a seed menu; (c) "
     "Audit.find_sample_size given a sample of manual records (per-assertion data tiled; contest = max over unconfirmed assertions); "
@@ -457,6 +457,23 @@ def run_shard(sh, rec):
                             rec.violate(key, what, {"kind": "det", "m": mi, "N": N, "x": list(x), "alpha": alpha})
                         if rec.want_sample(("det", mi, N, x, alpha)):
                             rec.sample({"method": METHODS[mi][:3], "N": N, "pilot": list(x), "alpha": alpha, "estimate": got})
+    elif kind == "detbig":
+        # populations of thousands: pilots of mostly 1/2 with an occasional 1 (or a 0 now and then) cross late or never
+        _, mi = sh
+        m = METHODS[mi]
+        for N in (1500, 5000):
+            for x in (["1/2"] * 9 + ["1"], ["1/2"] * 39 + ["1"], ["1/2"] * 199 + ["1"], ["1/2"] * 30 + ["1", "1", "0"], ["1/2"] * 999 + ["1"] * 9):
+                rec.state()
+                for alpha in (0.05, 0.001):
+                    v, got = judge_det(m, N, list(x), alpha)
+                    rec.trans()
+                    rec.evals(2)
+                    rec.vac("estimates_for_populations_of_thousands")
+                    if got is not None and 1024 < got < N:
+                        rec.vac("late_crossings_beyond_1024")
+                    rec.observe(("detbig", mi, N, len(x), alpha, got))
+                    for key, what in v:
+                        rec.violate(key, what[:160] + f" ... [pilot of {len(x)} values, N={N}] estimate {got}", {"kind": "det", "m": mi, "N": N, "x": list(x), "alpha": alpha})
     elif kind == "sim":
         _, mi, N, maxtail = sh
         m = METHODS[mi]
@@ -623,6 +640,7 @@ def explore(tier, seed):
         for N in ([6] if q else [6, 8]):
             sh.append(("contest", mi, N))
         sh.append(("wide", mi))
+        sh.append(("detbig", mi))
     return core.pmap(run_shard, sh, seed, progress="C16")
 
 
